@@ -38,6 +38,7 @@ def check(ctx, report):
     report.rule('C10.R5', 'enum typed integer fields: parse width == compose width')
     report.rule('C10.R6', 'GREASE classification equals RFC 8701 (tables and decision)')
     strict_decoding(ctx, report)
+    variant_order(ctx, report, 'C10.R8')
     grease_classification(ctx, report, 'C10.R6')
     # ---- R1
     n_enum = 0
@@ -444,3 +445,45 @@ def strict_decoding(ctx, report):
                            '%s decodes wire bytes with the %r error handler: undecodable bytes are dropped / replaced before the value is looked up or '
                            'stored, so an unregistered code is mapped onto a registered one' % (ast.unparse(n)[:70], lenient[0].value))
     report.count('C10.R7', n_calls, nontrivial=0)
+
+
+# ---- variant lists ---------------------------------------------------------------------------------------------------------
+
+def variant_order(ctx, report, rule):
+    """a variant dispatcher tries the classes registered for one tag in order and moves on only when a class raises
+    InvalidType. A class that is not the last of its list must therefore be able to decline (raise InvalidType in its own
+    _parse on a discriminating field); otherwise it shadows every class behind it and parses their messages as its own."""
+    import ast
+    from ..values import DictV, ListV
+    model, it = ctx.model, ctx.interp
+    report.rule(rule, 'variant lists: every class but the last can decline with InvalidType (no class shadows the ones behind it)')
+    base = model.try_cls('VariantParsableBase')
+    if base is None:
+        report.error('%s: VariantParsableBase vanished' % rule)
+        return
+    lists = 0
+    for c in model.all_subclasses(base):
+        f = c.resolve('_get_variants')
+        if f is None or f.abstract:
+            continue
+        v = it.const_call(c, '_get_variants')
+        if not isinstance(v, DictV):
+            continue
+        for k, val in v.pairs:
+            items = val.items if isinstance(val, ListV) else (list(val) if isinstance(val, (tuple, list)) else [val])
+            if len(items) < 2:
+                continue
+            lists += 1
+            report.count(rule)
+            for x in items[:-1]:
+                k2 = getattr(x, 'cls', None)
+                pf = k2.resolve('_parse') if hasattr(k2, 'resolve') else None
+                if pf is None:
+                    continue
+                declines = any(isinstance(n, ast.Raise) and n.exc is not None and 'InvalidType' in ast.unparse(n.exc) for n in ast.walk(pf.node))
+                if not declines:
+                    report.add(rule, '%s@variant-order[%s]' % (c.construct, show(k)),
+                               '%s is tried before %s for %s but never declines (no InvalidType in its _parse): the classes behind it are unreachable '
+                               'and their messages are parsed with the wrong layout' % (k2.name, ', '.join(getattr(getattr(y, 'cls', None), 'name', '?') for y in items[items.index(x) + 1:]), show(k)))
+    if lists < 1:
+        report.error('%s: no multi-class variant list found (anchor moved)' % rule)
